@@ -16,6 +16,7 @@ import (
 	yaml "sigs.k8s.io/yaml/goyaml.v3"
 
 	"go.opentelemetry.io/collector/component"
+	"go.opentelemetry.io/collector/config/confighttp"
 	"go.opentelemetry.io/collector/config/configopaque"
 	"go.opentelemetry.io/collector/confmap"
 	"go.opentelemetry.io/collector/exporter/otlpexporter"
@@ -104,6 +105,7 @@ func TestVerifC14Enc(t *testing.T) {
 			c14UnmarshalKeeps(out, n+len(builtins))
 			c14UnmarshalExpanded(out, n+len(builtins)+1)
 			c14ErrorTexts(out, n+len(builtins)+2)
+			c14WhitespaceSecrets(out, n+len(builtins)+3)
 		}
 		if c < len(builtins) {
 			c14Builtin(out, c, builtins[c])
@@ -638,4 +640,113 @@ func c14LiveLeaves(v any, shape string, report func(shape, what string), secrets
 		// typed arrays are handed on by the encoder (modelled: Any.typed); their elements keep the opaque type,
 		// renderers go through its methods — reported only as a statistic by the caller
 	}
+}
+
+// ---- secrets with leading / trailing white space ---------------------------------------------------------------
+// "unmarshalling stores the secret unchanged": byte for byte, also when the secret begins or ends with blanks, tabs, a
+// newline (PEM blocks, YAML block scalars), NBSP, U+3000 or consists of white space only. Decoded through confmap.Unmarshal
+// (scalar, pointer, slice element, map value, the real confighttp.ClientConfig.Headers), the real Resolver with a provider
+// expansion, encoding/json and yaml.
+
+type c14WSTarget struct {
+	Direct  configopaque.String            `mapstructure:"direct" json:"direct" yaml:"direct"`
+	Ptr     *configopaque.String           `mapstructure:"ptr" json:"ptr" yaml:"ptr"`
+	List    []configopaque.String          `mapstructure:"list" json:"list" yaml:"list"`
+	Headers map[string]configopaque.String `mapstructure:"headers" json:"headers" yaml:"headers"`
+	Nested  struct {
+		Secret configopaque.String `mapstructure:"secret" json:"secret" yaml:"secret"`
+	} `mapstructure:"nested" json:"nested" yaml:"nested"`
+}
+
+func (t *c14WSTarget) stored() [][2]string {
+	out := [][2]string{{"scalar", string(t.Direct)}, {"map-value", string(t.Headers["h"])}, {"nested", string(t.Nested.Secret)}}
+	if t.Ptr != nil {
+		out = append(out, [2]string{"pointer", string(*t.Ptr)})
+	} else {
+		out = append(out, [2]string{"pointer", "<nil pointer>"})
+	}
+	if len(t.List) == 1 {
+		out = append(out, [2]string{"slice-element", string(t.List[0])})
+	} else {
+		out = append(out, [2]string{"slice-element", fmt.Sprintf("<%d elements>", len(t.List))})
+	}
+	return out
+}
+
+func c14WhitespaceSecrets(out *vOut, c int) {
+	out.Linef("case %d unmarshal-white-space", c)
+	out.Linef("op builtin name=unmarshal-white-space")
+	out.Linef("obs checked")
+	core := "s3cr3t-ws-Qx"
+	kinds := [][2]string{
+		{"leading-blank", " " + core}, {"trailing-blank", core + " "}, {"both-blanks", "  " + core + "  "},
+		{"leading-tab", "\t" + core}, {"trailing-tab", core + "\t"},
+		{"trailing-newline", core + "\n"}, {"pem-block", "-----BEGIN KEY-----\nAAAA\n-----END KEY-----\n"}, {"leading-newline", "\n" + core},
+		{"trailing-crlf", core + "\r\n"}, {"nbsp", "\u00a0" + core + "\u00a0"}, {"ideographic-space", "\u3000" + core + "\u3000"},
+		{"only-blanks", "   "}, {"only-newline", "\n"}, {"only-nbsp", "\u00a0"}, {"inner-only", "a  b"},
+	}
+	alter := func(via, pos, kind, want, got string) {
+		if got != want {
+			out.Linef("viol sig=C14/unmarshal/secret-altered/%s/%s/%s wrote=%s got=%s", via, pos, kind, vHex(want), vHex(got))
+		}
+	}
+	for _, k := range kinds {
+		kind, sec := k[0], k[1]
+		doc := map[string]any{"direct": sec, "ptr": sec, "list": []any{sec}, "headers": map[string]any{"h": sec}, "nested": map[string]any{"secret": sec}}
+		// confmap.Unmarshal of a plain map
+		var t1 c14WSTarget
+		if err := confmap.NewFromStringMap(doc).Unmarshal(&t1); err != nil {
+			out.Linef("viol sig=C14/unmarshal/secret-rejected/confmap/%s err=%s", kind, vHex(err.Error()))
+		} else {
+			for _, st := range t1.stored() {
+				alter("confmap", st[0], kind, sec, st[1])
+			}
+		}
+		// the real client configuration's headers map
+		hc := confighttp.NewDefaultClientConfig()
+		if err := confmap.NewFromStringMap(map[string]any{"headers": map[string]any{"authorization": sec}}).Unmarshal(&hc); err != nil {
+			out.Linef("viol sig=C14/unmarshal/secret-rejected/confighttp-headers/%s err=%s", kind, vHex(err.Error()))
+		} else {
+			alter("confmap", "confighttp.ClientConfig.Headers", kind, sec, string(hc.Headers["authorization"]))
+		}
+		// through the real Resolver, the secret arriving by a provider expansion (file / env style: the provider's bytes)
+		var t2 c14ExpTarget
+		if err := c14Resolve(map[string]any{"direct": "${mem:s}", "headers": map[string]any{"h": "${mem:s}"}, "list": []any{"${mem:s}"}, "nested": map[string]any{"secret": "${mem:s}"}},
+			map[string]string{"s": sec}, &t2); err != nil { // the provider's raw bytes, as env / file providers hand them over
+			out.Linef("viol sig=C14/unmarshal/secret-rejected/resolver/%s err=%s", kind, vHex(err.Error()))
+		} else {
+			alter("resolver", "scalar", kind, sec, string(t2.Direct))
+			alter("resolver", "map-value", kind, sec, string(t2.Headers["h"]))
+			alter("resolver", "nested", kind, sec, string(t2.Nested.Secret))
+			if len(t2.List) == 1 {
+				alter("resolver", "slice-element", kind, sec, string(t2.List[0]))
+			}
+		}
+		// encoding/json
+		if jb, err := json.Marshal(doc); err == nil {
+			var t3 c14WSTarget
+			if err := json.Unmarshal(jb, &t3); err != nil {
+				out.Linef("viol sig=C14/unmarshal/secret-rejected/json/%s err=%s", kind, vHex(err.Error()))
+			} else {
+				for _, st := range t3.stored() {
+					alter("json", st[0], kind, sec, st[1])
+				}
+			}
+		}
+		// yaml
+		if yb, err := json.Marshal(doc); err == nil { // flow style (JSON is YAML): yaml.Marshal itself emits an unparsable block list for "\n…"
+			var t4 c14WSTarget
+			if err := yaml.Unmarshal(yb, &t4); err != nil {
+				out.Linef("viol sig=C14/unmarshal/secret-rejected/yaml/%s err=%s", kind, vHex(err.Error()))
+			} else {
+				for _, st := range t4.stored() {
+					alter("yaml", st[0], kind, sec, st[1])
+				}
+			}
+		}
+		out.Linef("stat white_space_secret_kinds 1")
+	}
+	out.Linef("nt")
+	out.Linef("end")
+	out.Flush()
 }
